@@ -736,7 +736,10 @@ func (cmd *Command) printDiagnostics(cs []*lint.Analyzer, diagnostics []diagnost
 			numIgnored++
 			continue
 		}
-		if shouldExit[makeCaseFoldedString(diag.Category)] {
+		if diag.Severity == severityIgnored {
+			// Shown because of -show-ignored; ignored problems never
+			// affect the exit status.
+		} else if shouldExit[makeCaseFoldedString(diag.Category)] {
 			numErrors++
 		} else {
 			diag.Severity = severityWarning
